@@ -96,7 +96,7 @@ class OsuMapMeta(
         for e, line in enumerate(lines):
             if line == "":
                 continue
-            k, *v = line.split(":")
+            k, *v = line.split(":", 1)
             if v:
                 v = v[0]
             if k == "AudioFilename":
